@@ -257,10 +257,11 @@ def _file(f, p, v, env):
     if s.startswith("~") or "\\" in s:
         return UNKNOWN, None
     startdir = p.get("startdir")
-    if not posixpath.isabs(s) and startdir:
+    isabs = posixpath.isabs(s) or s.startswith("$")  # "$FX/..." placeholders stand for absolute paths
+    if not isabs and startdir:
         s = posixpath.normpath(posixpath.join(startdir, s))
         look = s
-    elif posixpath.isabs(s):
+    elif isabs:
         look = posixpath.normpath(s)
     else:
         look = posixpath.normpath(posixpath.join(env.get("cwd", "/nonexistent-cwd"), s))
